@@ -326,10 +326,30 @@ func hasFlag(b *Block, k string) bool {
 
 // ---------- query construction ----------
 
-func (g *Gen) axiomsText() string {
+// axiomsText: the carrier round-trip and bridge axioms are always present; the others
+// (MONO_*) only in units whose contract block asks for them with `axioms NAME...`, because
+// their two-variable patterns slow every query down.
+func (g *Gen) axiomsText(u *Unit) string {
 	ax, _ := carrierAxioms()
+	extra := map[string]bool{}
+	if u != nil && u.block != nil {
+		for _, n := range strings.Fields(u.block.Flags["axioms"]) {
+			extra[n] = true
+		}
+	}
+	if u != nil && u.caseBlock != nil {
+		for _, n := range strings.Fields(u.caseBlock.Flags["axioms"]) {
+			extra[n] = true
+		}
+	}
 	var sb strings.Builder
 	for _, k := range sortedKeys(ax) {
+		if (strings.HasPrefix(k, "MONO_") || strings.HasPrefix(k, "AMD64_")) && !extra[k] {
+			continue
+		}
+		if strings.HasPrefix(k, "AMD64_") {
+			g.Assumed["float64->uint32 conversion of an out-of-range (negative) value behaves as compiled by gc for amd64 (through int64, then truncated): axiom "+k] = true
+		}
 		sb.WriteString("(assert " + ax[k] + ")\n")
 	}
 	return sb.String()
@@ -342,7 +362,7 @@ func (o *Obligation) query(g *Gen, withModel bool) string {
 	var sb strings.Builder
 	sb.WriteString("(set-option :produce-models true)\n(set-logic ALL)\n")
 	sb.WriteString(g.Pre.text())
-	sb.WriteString(g.axiomsText())
+	sb.WriteString(g.axiomsText(o.unit))
 	if o.unit != nil {
 		for _, d := range o.unit.decls {
 			sb.WriteString(d + "\n")
@@ -368,7 +388,9 @@ func (o *Obligation) query(g *Gen, withModel bool) string {
 
 // verifyCase verifies one case of the first switch of a function against its case contract: the
 // function is executed from its entry, but at the designated switch only that case is explored.
-func (g *Gen) verifyCase(b *Block) {
+func (g *Gen) verifyCase(b *Block) { g.verifyCaseX(b, false) }
+
+func (g *Gen) verifyCaseX(b *Block, unreachable bool) {
 	fd := g.P.Funcs[b.Target]
 	if fd == nil || fd.Body == nil {
 		g.errorf("contract %s: no such function", b.ID())
@@ -407,20 +429,32 @@ func (g *Gen) verifyCase(b *Block) {
 	// the unit carries the function-level block for requires/ensures, with the case's flags on top
 	merged := &Block{Kind: "func", Target: b.Target, Case: b.Case, Loop: -1, Closure: -1, Flags: map[string]string{}, Props: b.Props, Line: b.Line}
 	for k, v := range fb.Flags {
+		merged.Flags[k] = v
+	}
+	for k, v := range b.Flags {
 		if k != "nopanic" {
 			merged.Flags[k] = v
 		}
 	}
-	for k, v := range b.Flags {
-		merged.Flags[k] = v
-	}
+	// the function-level contract is proved case by case: every case unit checks the function's
+	// ensures / panic clauses on the exits it reaches
 	for _, c := range fb.Clauses {
-		if c.Kind == "requires" {
-			merged.Clauses = append(merged.Clauses, c)
+		if c.Kind == "requires" || c.Kind == "ensures" || c.Kind == "panics_iff" || c.Kind == "modifies" {
+			cc2 := c
+			if len(cc2.Props) == 0 {
+				cc2.Props = fb.Props
+			}
+			merged.Clauses = append(merged.Clauses, cc2)
 		}
 	}
 	u := g.newUnit(b.ID(), fd, merged)
-	u.props = b.Props
+	u.props = append([]string{}, b.Props...)
+	for _, p := range fb.Props {
+		if !hasProp(u.props, p) {
+			u.props = append(u.props, p)
+		}
+	}
+	u.unreachable = unreachable
 	u.caseSwitch, u.caseClause, u.caseBlock = sw, cc, b
 	u.caseBody = cc
 	g.Funcs[b.ID()] = true
@@ -429,7 +463,38 @@ func (g *Gen) verifyCase(b *Block) {
 	u.entry = st.clone()
 	u.entry.heaps = st.heaps
 	u.runBody(st, fd.Body.List)
-	u.finishCase()
+	if !unreachable {
+		u.finishCase()
+	}
+}
+
+// caseLabels lists the labels of the first switch of a function ("default" for the default clause).
+func caseLabels(fd *ast.FuncDecl) []string {
+	var out []string
+	done := false
+	ast.Inspect(fd.Body, func(n ast.Node) bool {
+		if done {
+			return false
+		}
+		if s, ok := n.(*ast.SwitchStmt); ok {
+			done = true
+			for i, c := range s.Body.List {
+				cc := c.(*ast.CaseClause)
+				if cc.List == nil {
+					out = append(out, "default")
+					continue
+				}
+				l := caseLabel(cc.List[0])
+				if l == "" {
+					l = fmt.Sprintf("#%d", i)
+				}
+				out = append(out, l)
+			}
+			return false
+		}
+		return true
+	})
+	return out
 }
 
 // finishCase emits the case-level obligations (ensures at the end of the case body, panic clauses).
